@@ -23,6 +23,7 @@ type c03Sock struct {
 var c03C struct {
 	socks    []*c03Sock
 	replyLen [][]int // scripted reply sizes per socket index
+	idle     chan struct{} // closed when the traffic is over: only then do the sockets' idle timeouts fire
 }
 
 func c03Sock4(c *net.UDPConn) *c03Sock {
@@ -57,6 +58,9 @@ func c03StubUDPWrite(c *net.UDPConn, b []byte) (int, error) {
 func c03StubSockRead(c *net.UDPConn, b []byte) (int, *net.UDPAddr, error) {
 	s := c03Sock4(c)
 	if s == nil || s.pos >= len(s.replies) {
+		// the 30 s idle timeout: it does not fire between the requests of this scenario (a socket that
+		// expired may legitimately be replaced by a new one for the same user)
+		<-c03C.idle
 		return 0, nil, errors.New("i/o timeout")
 	}
 	n := copy(b, s.replies[s.pos])
@@ -86,6 +90,7 @@ func VerifC03ClientForwarder() {
 		reqs = append(reqs, req{zzverif.Choice("user", 2), zzverif.Bytes("payload", zzverif.Choice("size", 2))})
 	}
 	c03C.socks, c03C.replyLen = nil, nil
+	c03C.idle = make(chan struct{})
 	for s := 0; s < 2; s++ {
 		var lens []int
 		k := zzverif.Choice("replies", 3)
@@ -101,6 +106,8 @@ func VerifC03ClientForwarder() {
 		readCh <- NewUDPPacket(r.payload, nil, users[r.user])
 	}
 	close(readCh)
+	zzverif.Quiesce()
+	close(c03C.idle)
 	zzverif.Quiesce()
 
 	// sockets: one per distinct user, in order of first appearance
